@@ -86,7 +86,7 @@ Operands(x) ==
   IF x.rank = 0
     THEN {MkNested(<<<<2>>, <<1, 2>>>>, 5), MkNested(<<<<2>>>>, 5)}
     ELSE LET s == DimsR(x.rank, x.data) IN
-         {Mk(s, 4), Mk([s EXCEPT ![1] = (s[1] % MaxDim) + 1], 4)}
+         {Mk(s, 4), Mk(s, 9), Mk([s EXCEPT ![1] = (s[1] % MaxDim) + 1], 4)}
          \cup (IF x.rank = 2 THEN {Mk(<<s[1] * s[2]>>, 4)} ELSE {})
          \cup (IF x.rank = 1 THEN {Mk(<<1, s[1]>>, 4)} ELSE {})
 
